@@ -136,7 +136,34 @@ class Base:
         return sv
 
     def field_type(self, field):
-        return self.con.types.get("." + field) or C.FIELD_TYPES.get(field)
+        return self.con.types.get("." + field) or C.FIELD_TYPES.get(field) or self.auto_field_types().get(field)
+
+    def auto_field_types(self):
+        """Field types read mechanically from the annotated assignments `self.x: T = ...` in the __init__ methods of the
+        class under verification (the code base is type-checked; same status as the declared field types: assumed)."""
+        if not hasattr(self, "_auto_ft"):
+            self._auto_ft = {}
+            try:
+                import ast as _ast
+                import inspect
+                import textwrap
+                from .execu import ann_to_type
+
+                cname = self.con.self_class or self.ext.class_name
+                cls = self.resolve_class_name(cname) if cname else None
+                for c in (cls.__mro__ if cls else ()):
+                    init = vars(c).get("__init__")
+                    if init is None or not hasattr(init, "__code__"):
+                        continue
+                    tree = _ast.parse(textwrap.dedent(inspect.getsource(init)))
+                    for n in _ast.walk(tree):
+                        if isinstance(n, _ast.AnnAssign) and isinstance(n.target, _ast.Attribute) and isinstance(n.target.value, _ast.Name) and n.target.value.id == "self":
+                            ty = ann_to_type(n.annotation)
+                            if ty != "any":
+                                self._auto_ft.setdefault(n.target.attr, ty)
+            except Exception:
+                pass
+        return self._auto_ft
 
     # ---------------------------------------------------------------- heap access
     def load_field(self, st, ref_term, field):
